@@ -31,7 +31,7 @@ class Job:
     def __init__(self, name, harness, sources=(), entry='harness', be=False, unwind=70,
                  unwindset=None, defines=(), incs=(), timeout=900, mem_gb=12, object_bits=None,
                  extra=(), meta=None, expect_witness=True, replayable=True, group=None,
-                 extra_files=None, nondet_static=False, backend=None):
+                 extra_files=None, nondet_static=False, backend=None, extra_sources=None):
         self.name = name              # unique within a check run
         self.harness = harness        # C source text
         self.sources = list(sources)  # paths relative to REPO (or absolute)
@@ -51,7 +51,8 @@ class Job:
         self.group = group or name
         self.extra_files = dict(extra_files or {})   # name -> text, written next to harness
         self.nondet_static = nondet_static
-        self.backend = backend        # None | 'cadical' | 'kissat' | 'z3' | 'cvc5'
+        self.extra_sources = dict(extra_sources or {})   # name -> C text, compiled with the harness
+        self.backend = backend or os.environ.get('VP_BACKEND') or None  # None | 'cadical' | 'kissat' | 'z3' | 'cvc5'
 
 
 class Prop:
@@ -157,7 +158,7 @@ def compile_goto(job, wd):
     hp = os.path.join(wd, 'harness.c')
     with open(hp, 'w') as f:
         f.write(job.harness)
-    for n, t in job.extra_files.items():
+    for n, t in list(job.extra_files.items()) + list(job.extra_sources.items()):
         with open(os.path.join(wd, n), 'w') as f:
             f.write(t)
     gb = os.path.join(wd, 'h.gb')
@@ -167,7 +168,7 @@ def compile_goto(job, wd):
     cmd += ['-D' + d for d in job.defines]
     if job.be:
         cmd += BE_FLAGS
-    cmd += [hp] + [_src_path(s) for s in job.sources] + ['-o', gb]
+    cmd += [hp] + [os.path.join(wd, n) for n in job.extra_sources] + [_src_path(s) for s in job.sources] + ['-o', gb]
     rc, out, err, wall, rss = run_cmd(cmd, 300, 8, cwd=wd)
     return rc, (out + err).decode(errors='replace'), gb, cmd
 
@@ -369,7 +370,7 @@ def write_replay(job, prop, value, tag):
     os.makedirs(d, exist_ok=True)
     with open(os.path.join(d, 'harness.c'), 'w') as f:
         f.write(job.harness)
-    for n, t in job.extra_files.items():
+    for n, t in list(job.extra_files.items()) + list(job.extra_sources.items()):
         with open(os.path.join(d, n), 'w') as f:
             f.write(t)
     init = _val_to_c(value) if value is not None else '{0}'
@@ -379,7 +380,8 @@ def write_replay(job, prop, value, tag):
     meta = {'job': job.name, 'property_failed': prop.as_dict(), 'sources': job.sources,
             'incs': job.incs, 'defines': job.defines, 'be': job.be, 'entry': job.entry,
             'unwind': job.unwind, 'unwindset': job.unwindset, 'object_bits': job.object_bits,
-            'extra': job.extra, 'nondet_static': job.nondet_static, 'meta': job.meta}
+            'extra': job.extra, 'nondet_static': job.nondet_static, 'meta': job.meta,
+            'extra_sources': sorted(job.extra_sources)}
     with open(os.path.join(d, 'meta.json'), 'w') as f:
         json.dump(meta, f, indent=1)
     return d
@@ -397,7 +399,8 @@ def replay_dir(d, verbose=False):
     cmd += ['-I' + (i if os.path.isabs(i) else os.path.join(REPO, i)) for i in meta['incs']]
     cmd += ['-D' + x for x in meta['defines']]
     cmd += ['-DVP_ENTRY_FN=' + meta['entry']]
-    cmd += [os.path.join(d, 'harness.c')] + [_src_path(s) for s in meta['sources']]
+    cmd += [os.path.join(d, 'harness.c')] + [os.path.join(d, n) for n in meta.get('extra_sources', [])]
+    cmd += [_src_path(s) for s in meta['sources']]
     cmd += ['-o', exe, '-lm']
     rc, out, err, wall, rss = run_cmd(cmd, 300, 16, cwd=d)
     if rc != 0:
@@ -414,10 +417,18 @@ def replay_dir(d, verbose=False):
     text = (out + err).decode(errors='replace')
     if rc == 3 and 'VP_REPLAY_VOID' in text:
         return False, 'replay void (assumption not met):\n' + text[-2000:]
-    genuine = ('VP_REPLAY_FAIL' in text or 'ERROR: AddressSanitizer: ' in text
-               or 'runtime error: ' in text or 'VP_STUB_FAIL' in text)
+    want = meta.get('property_failed', {}).get('description', '')
+    is_assert = '.assertion.' in meta.get('property_failed', {}).get('property', '')
+    sanitizer = ('ERROR: AddressSanitizer: ' in text or 'runtime error: ' in text
+                 or 'VP_STUB_FAIL' in text)
+    if is_assert and not sanitizer:
+        genuine = ('VP_REPLAY_FAIL: ' + want) in text
+    else:
+        genuine = sanitizer or 'VP_REPLAY_FAIL' in text
     if rc != 0 and genuine:
         return True, 'exit %s\n%s' % (rc, text[-4000:])
+    if rc != 0 and 'VP_REPLAY_FAIL' in text:
+        return False, 'replay fails, but not on the obligation the solver named\n' + text[-2000:]
     if rc != 0:
         return None, 'replay run failed for a reason that is not a property failure (exit %s)\n%s' % (rc, text[-2000:])
     return False, 'replay ran to completion without failure\n' + text[-1500:]
@@ -431,7 +442,8 @@ def replay_dir_cbmc(d, meta):
             unwindset=meta['unwindset'], defines=list(meta['defines']) + ['VP_CONCRETE_INPUT'],
             incs=meta['incs'], object_bits=meta['object_bits'], extra=meta['extra'],
             nondet_static=meta.get('nondet_static', False), expect_witness=False,
-            extra_files={'vp_replay_in.h': open(os.path.join(d, 'vp_replay_in.h')).read()})
+            extra_files={'vp_replay_in.h': open(os.path.join(d, 'vp_replay_in.h')).read()},
+            extra_sources={n: open(os.path.join(d, n)).read() for n in meta.get('extra_sources', [])})
     sc = tempfile.mkdtemp(prefix='vp-replay-', dir='/var/tmp')
     try:
         r = run_job(j, sc)
